@@ -11,11 +11,37 @@ Tie: correspondence.  Generated operation sequences run on the REAL builder (imp
 Witness search: the property itself is evaluated on the implementation's answers with this file's own
      bookkeeping of which segment was added with which type (no model involved).
 """
+import ast
 import json
+import os
 
-from lib.vcommon import coq_list, coq_opt, coq_str, coq_z
+from lib.vcommon import REPO, coq_list, coq_opt, coq_str, coq_z
 
-KINDS = ["SpikeThresh", "InitMembPotential", "SpecificCapacitance", "Resistivity"]
+KINDS = ["SpikeThresh", "InitMembPotential", "SpecificCapacitance", "ChannelDens", "Resistivity"]   # order of Builder.kinds
+SET_KINDS = ["SpikeThresh", "InitMembPotential", "SpecificCapacitance", "Resistivity"]
+# documented defaults of the optional parameters (what the model assumes; tied to the source by signature_check)
+SEG_DEFAULTS = {"seg_id": None, "name": None, "parent": None, "fraction_along": 4, "group_id": None, "use_convention": True,
+                "seg_type": None, "reorder_segment_groups": True, "optimise_segment_groups": True}
+SEG_FIELDS = {"seg_id": "seg_id", "name": "name", "parent": "parent", "fraction_along": "frac", "group_id": "group",
+              "use_convention": "conv", "seg_type": "ty", "reorder_segment_groups": "reorder", "optimise_segment_groups": "optimise"}
+UNB_ARGS = ["parent", "fraction_along", "group_id", "use_convention", "seg_type", "reorder_segment_groups", "optimise_segment_groups"]
+CHAN_OPTIONALS = ["erev", "group_id", "ion", "ion_chan_def_file"]
+SIGNATURES = {
+    "add_segment": "self, prox, dist, seg_id=None, name=None, parent=None, fraction_along=1.0, group_id=None, "
+                   "use_convention=True, seg_type=None, reorder_segment_groups=True, optimise_segment_groups=True",
+    "add_unbranched_segments": "self, points, parent=None, fraction_along=1.0, group_id=None, use_convention=True, seg_type=None, "
+                               "reorder_segment_groups=True, optimise_segment_groups=True",
+    "add_segment_group": "self, group_id, neuro_lex_id=None, notes=None",
+    "add_unbranched_segment_group": "self, group_id, notes=None",
+    "reorder_segment_groups": "self", "optimise_segment_groups": "self", "optimise_segment_group": "self, seg_group_id",
+    "set_spike_thresh": "self, v, group_id='all'", "set_init_memb_potential": "self, v, group_id='all'",
+    "set_resistivity": "self, resistivity, group_id='all'", "set_specific_capacitance": "self, spec_cap, group_id='all'",
+    "add_intracellular_property": "self, property_name, **kwargs", "add_membrane_property": "self, property_name, **kwargs",
+    "add_channel_density": "self, nml_cell_doc, cd_id, ion_channel, cond_density, erev='0.0 mV', group_id='all', "
+                           "ion='non_specific', ion_chan_def_file=''",
+    "setup_nml_cell": "self, use_convention=True, overwrite=False, default_groups=['all', 'soma_group']",
+    "setup_default_segment_groups": "self, use_convention=True, default_groups=['all', 'soma_group']",
+}
 DEFAULTS = {"soma": "soma_group", "axon": "axon_group", "dendrite": "dendrite_group"}
 DEFAULT_NAMES = ["all", "soma_group", "axon_group", "dendrite_group"]
 KNOWN_KEY = "C15:group-id-used-with-two-segment-types"
@@ -30,10 +56,80 @@ def seg(**kw):
     return d
 
 
-PROPS3 = [{"op": "prop", "kind": k, "v": 0, "group": "all"} for k in KINDS[:3]]
+PROPS3 = [{"op": "prop", "kind": k, "v": 0, "group": "all"} for k in SET_KINDS[:3]]
+
+
+def omit_defaults(o, names=None):
+    """leave out every optional argument (of those named) whose value is the documented default"""
+    om = []
+    if o["op"] == "seg":
+        for a, f in SEG_FIELDS.items():
+            if (names is None or a in names) and o[f] == SEG_DEFAULTS[a] and (a != "fraction_along" or not o.get("frac_int")):
+                om.append(a)
+    elif o["op"] == "unbranched":
+        for a in UNB_ARGS:
+            if (names is None or a in names) and o[SEG_FIELDS[a]] == SEG_DEFAULTS[a] and (a != "fraction_along" or not o.get("frac_int")):
+                om.append(a)
+    elif o["op"] == "group":
+        if o["nlex"] is None and (names is None or "neuro_lex_id" in names):
+            om.append("neuro_lex_id")
+    elif o["op"] == "chan":
+        dflt = {"erev": o["erev"] == 0, "group_id": o["group"] is None, "ion": o.get("ion", "non_specific") == "non_specific",
+                "ion_chan_def_file": o.get("file", "") == ""}
+        om = [a for a in CHAN_OPTIONALS if dflt[a] and (names is None or a in names)]
+    return dict(o, omit=om)
+
+
+def chan(k, erev=0, group=None, **kw):
+    return dict({"op": "chan", "k": k, "erev": erev, "group": group, "ion": "non_specific", "file": ""}, **kw)
+
+
+def all_subsets(xs):
+    out = [[]]
+    for x in xs:
+        out += [s + [x] for s in out]
+    return out
 
 # stored witnesses (DESIGN.md par.7, C15) - always run first
 CORPUS = [
+    # containers created by the user with their own ids; setters interleaved with add_segment: a setter changes
+    # nothing but its own property, whatever the ids of morphology / biophysical properties are
+    {"init": "custom", "kind": "corpus:user-made-containers-setters-interleaved",
+     "ops": [seg(), {"op": "prop", "kind": "SpikeThresh", "v": 0, "group": None}, seg(parent=0, group="dend_1", ty="dendrite"),
+             {"op": "prop", "kind": "Resistivity", "v": 0, "group": "all"}, seg(parent=1, group="dend_1", ty="dendrite"),
+             {"op": "prop", "kind": "InitMembPotential", "v": 0, "group": "all", "via": "generic"},
+             {"op": "unbranched", "npoints": 3, "parent": 0, "frac": 4, "frac_int": False, "group": "axon_1", "conv": True,
+              "ty": "axon", "reorder": True, "optimise": True},
+             {"op": "prop", "kind": "SpecificCapacitance", "v": 0, "group": None, "via": "generic"}, chan(0), seg(parent=2, ty="soma"),
+             {"op": "prop", "kind": "Resistivity", "v": 1, "group": None, "via": "generic"}]},
+    # ... and the same on a cell that came out of a file
+    {"init": "custom", "kind": "corpus:reloaded-cell-continued",
+     "ops": [seg(), seg(parent=0, group="dend_1", ty="dendrite"), {"op": "prop", "kind": "SpikeThresh", "v": 0, "group": "all"},
+             {"op": "reload"}, {"op": "prop", "kind": "InitMembPotential", "v": 0, "group": "all"},
+             seg(parent=1, group="dend_1", ty="dendrite"), {"op": "prop", "kind": "SpecificCapacitance", "v": 0, "group": "all"},
+             {"op": "reload"}, seg(parent=2, ty="axon"), chan(0, group="dend_1"), {"op": "prop", "kind": "Resistivity", "v": 0, "group": "all"}]},
+    {"init": "factory", "kind": "corpus:reloaded-factory-cell",
+     "ops": [seg(), seg(parent=0, group="g", ty="axon")] + PROPS3 + [{"op": "reload"}, seg(parent=1, group="g", ty="axon"),
+                                                                    {"op": "prop", "kind": "Resistivity", "v": 0, "group": None}]},
+    # add_channel_density with EVERY subset of its optional arguments left to the documented defaults
+    {"init": "factory", "kind": "corpus:channel-density-every-subset-of-defaults",
+     "ops": [seg()] + PROPS3 + [omit_defaults(chan(k), names=sub) for k, sub in enumerate(all_subsets(CHAN_OPTIONALS))]
+            + [omit_defaults(chan(20, erev=1, group="soma_group", ion="na", file="chan.nml"))]},
+    # every builder call with all / each single optional argument left out
+    {"init": "factory", "kind": "corpus:all-optional-arguments-omitted",
+     "ops": [omit_defaults(seg(ty="soma")), omit_defaults(seg(parent=0, ty="dendrite")),
+             omit_defaults(seg(parent=1, ty="dendrite", group="dend_1")),
+             omit_defaults({"op": "unbranched", "npoints": 3, "parent": 0, "frac": 4, "frac_int": False, "group": "axon_1",
+                            "conv": True, "ty": "axon", "reorder": True, "optimise": True}),
+             omit_defaults({"op": "group", "id": "extra", "nlex": None})]
+            + [{"op": "prop", "kind": k, "v": 0, "group": None} for k in SET_KINDS]
+            + [{"op": "prop", "kind": k, "v": 1, "group": None, "via": "generic"} for k in SET_KINDS]},
+    {"init": "bare", "kind": "corpus:each-optional-argument-omitted-alone",
+     "ops": [omit_defaults(seg(conv=True, ty="soma"), names=["seg_id"])]
+            + [omit_defaults(seg(parent=0, ty="axon"), names=[a]) for a in SEG_DEFAULTS if a != "parent"]
+            + [omit_defaults({"op": "unbranched", "npoints": 2, "parent": 1, "frac": 4, "frac_int": False, "group": "sec7",
+                              "conv": True, "ty": "dendrite", "reorder": True, "optimise": True}, names=[a]) for a in UNB_ARGS]
+            + PROPS3},
     {"init": "factory", "kind": "corpus:explicit-ids-not-ascending-then-duplicate",
      "ops": [seg(seg_id=10), seg(seg_id=11, parent=0, ty="dendrite"), seg(seg_id=5, parent=0, ty="axon"),
              seg(seg_id=6, parent=2, ty="axon", frac=0, frac_int=True), seg(seg_id=10, parent=1, ty="dendrite")]},
@@ -72,7 +168,8 @@ CORPUS = [
 
 # ----------------------------------------------------------------------------- generator
 def gen_case(rng, long=False):
-    init = "factory" if rng.random() < 0.8 else "bare"
+    init = rng.choices(["factory", "bare", "custom"], weights=[60, 12, 28])[0]
+    nchan = [0]
     n = rng.randint(12, 40) if long else rng.randint(1, 12)
     ops = []
     nseg = 0
@@ -167,13 +264,24 @@ def gen_case(rng, long=False):
             ops.append({"op": "reorder"})
         elif r < 0.85:
             ops.append({"op": "optimise"})
+        elif r < 0.88 and nseg > 0:
+            ops.append({"op": "reload"})
+        elif r < 0.92:
+            o = chan(nchan[0], erev=rng.choice([0, 0, 1]), group=rng.choice([None, None, "all", "soma_group"] + groups_seen[:1]),
+                     ion=rng.choice(["non_specific", "non_specific", "na"]), file=rng.choice(["", "", "chan.nml"]))
+            nchan[0] += 1
+            ops.append(omit_defaults(o, names=[a for a in CHAN_OPTIONALS if rng.random() < 0.6]))
         else:
-            k = rng.choice(KINDS)
+            k = rng.choice(SET_KINDS)
             v = rng.randrange(3) if not (faulty and rng.random() < 0.15) else 100 + rng.randrange(3)
-            ops.append({"op": "prop", "kind": k, "v": v, "group": rng.choice(["all", "all", "soma_group"] + groups_seen[:2])})
+            ops.append({"op": "prop", "kind": k, "v": v, "via": rng.choice(["setter", "setter", "generic"]),
+                        "group": rng.choice([None, "all", "all", "soma_group"] + groups_seen[:2])})
     if rng.random() < 0.6:
         have = {o["kind"] for o in ops if o["op"] == "prop"}
         ops += [p for p in PROPS3 if p["kind"] not in have]
+    # optional arguments equal to their documented default are left out half of the time
+    ops = [omit_defaults(o, names=[a for a in list(SEG_DEFAULTS) + ["neuro_lex_id"] if rng.random() < 0.5])
+           if o["op"] in ("seg", "unbranched", "group") else o for o in ops]
     return {"init": init, "ops": ops, "kind": ("long" if long else "short") + (":sloppy" if sloppy else "") + (":faulty" if faulty else "")}
 
 
@@ -201,7 +309,13 @@ def q_op(o):
         return "Reorder"
     if k == "optimise":
         return "Optimise"
+    if k == "reload":
+        return "Reload"
+    if k == "chan":
+        g = o["group"] if o["group"] is not None else "all"
+        return "(SetProp ChannelDens %s %s %s)" % (coq_z(10 * o["k"] + o["erev"]), q_bool(nmlid(g) and nmlid(o.get("ion", "x"))), q_s(g))
     if k == "prop":
+        o = dict(o, group=o["group"] if o["group"] is not None else "all")
         # valid = the whole component (value string and segmentGroup attribute) meets its facets
         return "(SetProp %s %s %s %s)" % (o["kind"], coq_z(o["v"]), q_bool(o["v"] < 100 and nmlid(o["group"])), q_s(o["group"]))
     raise ValueError(k)
@@ -369,7 +483,9 @@ def expected_error(o, before):
             return "BadSegType"
         return None
     if o["op"] == "prop":
-        return None if (o["v"] < 100 and nmlid(o["group"])) or o["kind"] != "Resistivity" else "Validation"
+        return None if (o["v"] < 100 and nmlid(o["group"] or "all")) or o["kind"] != "Resistivity" else "Validation"
+    if o["op"] in ("chan", "reload"):
+        return None
     return "?"
 
 
@@ -384,6 +500,24 @@ def predicate(case, res):
                         "returns", t["err"]))
         if "state" in t:
             before = [s[0] for s in t["state"]["segs"]]
+    # frame: a property setter / a reload changes nothing of the morphology; add_segment keeps every earlier segment
+    prev = None
+    for o, t in zip(case["ops"], trace):
+        if "state" not in t:
+            break
+        cur = t["state"]
+        if prev is not None:
+            if o["op"] in ("prop", "chan", "reload") and (cur["segs"] != prev["segs"] or cur["groups"] != prev["groups"]):
+                bad.append(("C15:setter-changes-morphology", "%s changed the segments / segment groups of the cell" % json.dumps(o)[:160],
+                            {"segs": len(prev["segs"]), "groups": [g["id"] for g in prev["groups"]]},
+                            {"segs": len(cur["segs"]), "groups": [g["id"] for g in cur["groups"]]}))
+            if o["op"] in ("seg", "unbranched", "group", "ugroup") and cur["segs"][:len(prev["segs"])] != prev["segs"]:
+                bad.append(("C15:earlier-segments-lost", "%s lost or changed earlier segments" % json.dumps(o)[:160],
+                            len(prev["segs"]), len(cur["segs"])))
+            if o["op"] in ("seg", "unbranched", "group", "ugroup", "reorder", "optimise", "reload") and cur["props"] != prev["props"]:
+                bad.append(("C15:earlier-properties-lost", "%s changed the biophysical properties" % json.dumps(o)[:160],
+                            prev["props"], cur["props"]))
+        prev = cur
     for z, o in ((res["final"] or {}).get("probes") or []):
         if o.get("err") != "DupId":
             bad.append(("C15:duplicate-explicit-segment-id-accepted",
@@ -452,6 +586,10 @@ def predicate(case, res):
                 key = ("C15:all-group-wrong" if gname == "all" else "C15:default-group-wrong") if disciplined else dkey
                 bad.append((key, "group %r resolves to %s, the segments added with that type are %s" % (gname, got, sorted(w)),
                             sorted(w), got))
+    for g in st["groups"]:
+        if len(set(g["members"])) != len(g["members"]) or len(set(g["includes"])) != len(g["includes"]):
+            bad.append(("C15:closing-optimise-leaves-duplicates", "group %r still has a duplicate member/include after the closing "
+                        "optimise step" % g["id"], "no duplicate", {"members": g["members"], "includes": g["includes"]}))
     seen = set()
     for g in st["groups"]:
         for i in g["includes"]:
@@ -461,13 +599,15 @@ def predicate(case, res):
         seen.add(g["id"])
     # validity when the basic properties were given and every input meets the schema facets
     # "given its basic biophysical properties": judged by the setter CALLS that returned, not by the cell
-    called = [o for o, t in zip(case["ops"], trace) if o["op"] == "prop" and "state" in t]
+    called = [dict(o, group=o["group"] or "all", v=o.get("v", 0), kind=o.get("kind", "ChannelDens"))
+              for o, t in zip(case["ops"], trace) if o["op"] in ("prop", "chan") and "state" in t]
     added = [o for o, t in zip(case["ops"], trace) if o["op"] in ("seg", "unbranched") and "state" in t]
     facets = (len(ids) >= 1 and all(isinstance(i, int) and i >= 0 for i in ids)
               and all((o["seg_id"] or 0) >= 0 for o in added if o["op"] == "seg")
               and all(nmlid(g["id"]) for g in st["groups"])
               and all(o["v"] < 100 and nmlid(o["group"]) for o in called)
-              and all(any(o["kind"] == k for o in called) for k in KINDS[:3]))
+              and all(nmlid(o.get("ion", "x")) for o in called)
+              and all(any(o["kind"] == k for o in called) for k in SET_KINDS[:3]))
     if facets and not (fin["validate"] and fin["xsd"]):
         bad.append(("C15:invalid-cell", "the cell has its basic properties but validate=%s, xsd=%s: %s %s"
                     % (fin["validate"], fin["xsd"], fin.get("validate_msg", ""), fin.get("xsd_msg", "")),
@@ -526,6 +666,30 @@ def shrink(ck, case, key, deadline):
     return cur
 
 
+# ------------------------------------------------------------- signatures (fail closed)
+def signature_check(ck):
+    """the model and the generator assume the parameter lists and documented defaults in SIGNATURES (an argument
+    equal to its default may be left out); they are re-read from class Cell in nml.py on every run"""
+    path = os.path.join(REPO, "neuroml", "nml", "nml.py")
+    try:
+        tree = ast.parse(open(path).read())
+    except Exception as e:  # noqa
+        ck.oblige("source:nml.py:parses", False, str(e), kind="source")
+        return
+    defs = {}
+    for node in tree.body:
+        if isinstance(node, ast.ClassDef) and node.name == "Cell":
+            for n in node.body:
+                if isinstance(n, ast.FunctionDef):
+                    defs[n.name] = n
+    for name, want in SIGNATURES.items():
+        fn = defs.get(name)
+        got = ast.unparse(fn.args) if fn is not None else "<method not found>"
+        norm = ast.unparse(ast.parse("def f(%s): pass" % want).body[0].args)
+        ck.oblige("source:Cell.%s:signature_and_defaults" % name, got == norm,
+                  "assumed (%s), found (%s)" % (norm, got), kind="source")
+
+
 # ----------------------------------------------------------------------------- run
 def run(ck):
     ck.rule = ("one evaluation = one generated operation sequence run on the real builder with the cell recorded after "
@@ -548,8 +712,9 @@ def run(ck):
                       "sequence); the link to the schema itself is C02's, not proved here (C15_valid_partial)",
                       "explicit segment ids are positive integers; property values come from a fixed table of valid/invalid strings"]
     ck.gate_static()
+    signature_check(ck)
 
-    n = ck.n(480, 7200)
+    n = ck.n(440, 7200)
     cases = [dict(c) for c in CORPUS]
     while len(cases) < n:
         cases.append(gen_case(ck.rng, long=(ck.rng.random() < 0.15)))
